@@ -151,12 +151,6 @@ def gen():
     rlb = F.fn_body(t, "read_lexicon", rel)
     out.append("(* read_lexicon clears the `resolved` flag (rows read after resolve() may carry unresolved split units) *)\n")
     out.append("Definition read_lexicon_clears_resolved : bool := %s.\n" % ("true" if re.search(r"self\.resolved\s*=\s*false\s*;", rlb) else "false"))
-    # both data sources of read_conn / read_lexicon (a path, bytes in memory) are one call each whose value reaches the same
-    # continuation: no arm returns, propagates or does anything else on its own
-    for fn_name, body in (("read_conn", rcb), ("read_lexicon", rlb)):
-        if not re.search(r"match\s+data\.convert\(\)\s*\{\s*DataSource::File\((\w+)\)\s*=>\s*self\.(\w+)\.read_file\(\1\)\s*,\s*"
-                         r"DataSource::Data\((\w+)\)\s*=>\s*self\.\2\.(?:read|read_bytes)\(\3\)\s*,?\s*\}", body):
-            build_bad.append("DictBuilder::%s: the two data sources (file, memory) are no longer one call each that reaches the same continuation" % fn_name)
     # the two routes of read_conn, each on its own: does the arm return / propagate by itself (before the common continuation,
     # which hands the dimensions to the lexicon also after a failure)?
     def arms(body):
